@@ -239,24 +239,24 @@ pub fn start_server(router: Router) -> (std::net::SocketAddr, thread::JoinHandle
 // ------------------------------------------------------------------ raw SVS protocol (harness side)
 
 #[derive(Serialize, Deserialize)]
-struct OpenReq {
-    resource: String,
+pub struct OpenReq {
+    pub resource: String,
 }
 #[derive(Serialize, Deserialize, Debug)]
 pub struct OpenResp {
-    version: u8,
-    stream_id: u64,
-    format: u16,
-    compression: u8,
+    pub version: u8,
+    pub stream_id: u64,
+    pub format: u16,
+    pub compression: u8,
 }
 #[derive(Serialize, Deserialize)]
-struct NextReq {
-    stream_id: u64,
+pub struct NextReq {
+    pub stream_id: u64,
 }
 #[derive(Serialize, Deserialize)]
-struct CancelReq {
-    stream_id: u64,
-    reason: String,
+pub struct CancelReq {
+    pub stream_id: u64,
+    pub reason: String,
 }
 
 fn raw_call(s: &mut TcpStream, id: u64, path: &str, body: Vec<u8>) -> io::Result<Frame> {
